@@ -15,6 +15,9 @@ VERIF = os.path.dirname(os.path.dirname(os.path.abspath(__file__)))
 SPEC = os.path.join(VERIF, "spec")
 HARNESS = os.path.join(VERIF, "harness")
 GOENV = dict(GOFLAGS="-mod=mod", GOPROXY="off", GOSUMDB="off", GOTOOLCHAIN="local")
+# the keyring library linked into the application probes the D-Bus session bus when a process starts, and where none is
+# configured it launches a dbus-daemon that outlives the process: give every child an address that simply fails
+os.environ.setdefault("DBUS_SESSION_BUS_ADDRESS", "unix:path=/nonexistent-verif-dbus")
 
 
 class Infra(Exception):
@@ -153,9 +156,14 @@ def run_tlc(work, module, cfg, out, workers=16, timeout=1500, extra=()):
     cmd = ["timeout", str(timeout), "tlc", "-workers", str(workers), "-metadir", md, "-config", cfg] + list(extra) + [module]
     held = acquire_slots(workers)
     t0 = time.time()
+    # TLC's own scratch directories (tlc-*) go inside the work directory, which is removed at exit
+    jtmp = work.path("jtmp")
+    os.makedirs(jtmp, exist_ok=True)
+    env = dict(os.environ)
+    env["JAVA_TOOL_OPTIONS"] = (env.get("JAVA_TOOL_OPTIONS", "") + " -Djava.io.tmpdir=" + jtmp).strip()
     try:
         with open(out, "w") as f:
-            rc = subprocess.call(cmd, cwd=work.dir, stdout=f, stderr=subprocess.STDOUT)
+            rc = subprocess.call(cmd, cwd=work.dir, stdout=f, stderr=subprocess.STDOUT, env=env)
     finally:
         release_slots(held)
     res = dict(rc=rc, wall=time.time() - t0, generated=0, distinct=0, depth=0, violated=None, error=None,
@@ -220,6 +228,10 @@ def run_harness(work, binary, test, env, out, timeout=3000):
     e.update({k: str(v) for k, v in env.items()})
     e["VERIF_SEED"] = str(work.seed)
     e["VERIF_TIER"] = work.tier
+    # the application creates scratch databases under the temporary directory: keep them inside the work directory
+    tmpd = work.path("tmp")
+    os.makedirs(tmpd, exist_ok=True)
+    e["TMPDIR"] = tmpd
     with open(out, "w") as f:
         return subprocess.Popen(["timeout", str(timeout), binary, "-test.run", "^" + test + "$", "-test.timeout", "0", "-test.v"],
                                 cwd=work.dir, env=e, stdout=f, stderr=subprocess.STDOUT)
